@@ -476,6 +476,31 @@ func runC20(c *Ctx) {
 			decf = a
 		}
 	}
+	// the two may be methods of a small rendezvous type, handed out as method values
+	if hnd == nil || decf == nil {
+		allInstrs(dec, func(in ssa.Instruction) {
+			switch x := in.(type) {
+			case *ssa.Return:
+				if hnd == nil && len(x.Results) > 0 {
+					for _, f := range c.funcsOf(x.Results[0]) {
+						f = p.unbound(f)
+						if sig := f.Signature; sig.Params().Len() == 2 && isNamed(sig.Params().At(0).Type(), "net/http", "ResponseWriter") {
+							hnd = f
+						}
+					}
+				}
+			case *ssa.Call:
+				if decf == nil && strings.HasSuffix(calleeName(x), ".WithParamDecoder") && len(x.Common().Args) == 2 {
+					for _, f := range c.funcsOf(x.Common().Args[1]) {
+						f = p.unbound(f)
+						if sig := f.Signature; sig.Params().Len() == 2 && isNamed(sig.Params().At(0).Type(), "context", "Context") && sig.Results().Len() == 2 {
+							decf = f
+						}
+					}
+				}
+			}
+		})
+	}
 	if !c.need("R20.2", "upload handler closure / decoder closure", hnd != nil && decf != nil) {
 		return
 	}
